@@ -58,6 +58,18 @@ Proof. vm_compute. reflexivity. Qed.
 Theorem only_interner_kept : StaticsGen.fields_kept_on_init = ["string_interner"%string].
 Proof. vm_compute. reflexivity. Qed.
 
+(** Every piece of mutable state of the two crates is accounted for by the model: the per-thread [CONTEXT]
+    (reset by the model's [do_init] except the interner), the wasm-only [OUTPUT_AND_LOG_PTRS] (six words
+    rewritten by [finalize] before the host reads them), [LOG_RET_AREA] (rewritten by every log call before
+    the glue reads it: [cret]) and the API's id cache [INTERNED_STRING_CACHE] ([ccache], which deliberately
+    survives).  A NEW static / thread_local in provider/src or api/src (a counter, a scratch buffer, a cache)
+    is state that a new invocation might inherit: the regenerated table then differs and this obligation
+    fails until the model accounts for it. *)
+Theorem all_state_outside_context_is_modelled :
+  map s_name (filter s_mutable StaticsGen.statics)
+  = ["CONTEXT"; "OUTPUT_AND_LOG_PTRS"; "LOG_RET_AREA"; "INTERNED_STRING_CACHE"]%string.
+Proof. vm_compute. reflexivity. Qed.
+
 (** the model's initialize: everything of [struct Context] is the default except the input and the
     interner (the other three fields are not part of [struct Context]) *)
 Theorem init_resets : forall (CAP : nat) (c : ctx) (b : list N),
